@@ -1297,6 +1297,20 @@ fn main() {
                     rw.filter_attrs(&mut im.attrs);
                     if spec.drop_where { im.generics.where_clause = None; }
                     drop_generics(&mut im.generics, &spec.drop_generics);
+                    if !spec.drop_generics.is_empty() {
+                        if let syn::Type::Path(tp) = &mut *im.self_ty {
+                            if let Some(last) = tp.path.segments.last_mut() {
+                                if let syn::PathArguments::AngleBracketed(ab) = &mut last.arguments {
+                                    let kept: Vec<syn::GenericArgument> = ab.args.iter().filter(|a| match a {
+                                        syn::GenericArgument::Type(t) => !spec.drop_generics.contains(&norm_tokens(&t.to_token_stream())),
+                                        _ => true,
+                                    }).cloned().collect();
+                                    ab.args = kept.into_iter().collect();
+                                }
+                            }
+                        }
+                        rw.rules.insert("R9".into());
+                    }
                     let key_prefix = match trait_name {
                         Some(t) => format!("{} for {}", t, type_name),
                         None => type_name.to_string(),
